@@ -317,6 +317,26 @@ def run(ctx):
     st = ex.func("_determine_ctype_and_stride_c")
     ok = any(isinstance(n, ast.Assign) and norm(n.targets[0]) == "stride" and norm(n.value) == "alignment // 8" for n in ast.walk(st))
     ctx.ob("E5", EXP, "_determine_ctype_and_stride_c", "stride = alignment // 8", ok, "" if ok else "stride changed", st)
+    # the accessor's C type holds the whole register (interpreted for every size 1..9 bytes, alignment 32 / 64): a narrower
+    # accumulator drops the most significant words on read and writes them as 0
+    from .. import pyconst
+    bad = None
+    for size in range(1, 10):
+        for al in (32, 64):
+            try:
+                got = pyconst.call(st, {"size": size, "alignment": al})
+            except pyconst.Unknowable as ex_:
+                ctx.need(False, f"_determine_ctype_and_stride_c cannot be interpreted ({ex_})")
+            r = got[1] if got[0] == "return" else None
+            ct = r[0] if isinstance(r, tuple) and len(r) == 2 else "?"
+            bits = {"uint8_t": 8, "uint16_t": 16, "uint32_t": 32, "uint64_t": 64}.get(ct)
+            if size > 8:
+                if ct is not None and bad is None:
+                    bad = f"size {size} bytes: type `{ct}` although no C integer holds it"
+            elif (bits is None or bits < 8 * size) and bad is None:
+                bad = f"a register of {size} bytes is accessed through `{ct}` ({bits or '?'} bits): the upper {8 * size - (bits or 0)} bits are lost"
+    ctx.ob("E5", EXP, "_determine_ctype_and_stride_c", "accessor type is at least as wide as the register (sizes 1..8 bytes), none above", bad is None,
+           bad or "", st)
 
     # ============================================================ E6
     _e6(ctx)
